@@ -276,6 +276,7 @@ class QueryWorld:
             for x in seq:
                 k = ip.dict_key(x, node)
                 d.entries[k] = Const(d.entries[k].v + 1) if k in d.entries else Const(1)
+            d.missing_value = Const(0)
             return d
         if name in ("max", "min") and len(args) == 1 and isinstance(args[0], SnapView) and not kwargs:
             return self.ids[-1] if name == "max" else self.ids[0]
